@@ -299,6 +299,12 @@ def judge_op(c):
         cls = "panic" if impl["status"] == "panic" else ("error" if impl["status"] == "error" else
               ("mutates-input" if what.startswith("input modified") else "wrong"))
         tag = (guard[0] if guard else "untagged." + str(c.get("op"))) + "." + cls
+        if (c.get("stream") or "").startswith("lazyT:"):
+            # same request, but the inputs of rank >= 2 were handed over lazily transposed (non-contiguous)
+            tag = "lazy_transposed_input." + str(c.get("op")) + "." + cls
+            what = "with lazily transposed (non-contiguous) inputs: " + what
+    if (c.get("stream") or "").startswith("lazyT:") and verdict != "violates" and corr == "disagree":
+        corr = "skip"   # judged against the specification only
     return J(corr=corr, verdict=verdict, tag=tag, what=what, key=key)
 
 
